@@ -114,7 +114,7 @@ def atom_kinds(f, acc=None):
             acc.add("in-var")
         atom_kinds(f[5], acc)
     elif k in ("forall_int", "exists_int"):
-        acc.add("numq")
+        acc.add("forall-int" if k == "forall_int" else "exists-int")
         atom_kinds(f[2], acc)
     elif k in ("not", "and", "or"):
         for g in f[1:]:
